@@ -7,7 +7,11 @@
 // simulated clients.
 package verifrt
 
-import "syscall"
+import (
+	"cmp"
+	"slices"
+	"syscall"
+)
 
 // TaskState is one simulated client (a real goroutine that runs only when the
 // serial scheduler has handed it the baton).
@@ -27,10 +31,10 @@ type Seg struct {
 
 // Switch is one executed context switch.
 type Switch struct {
-	From     int
-	AtStep   uint64
-	Site     uint32
-	To       int
+	From   int
+	AtStep uint64
+	Site   uint32
+	To     int
 }
 
 // SiteRec is a histogram record.
@@ -266,4 +270,20 @@ func CurSteps() uint64 {
 //go:norace
 func Ledger() (total, max uint64, site uint32, makes uint64) {
 	return AllocTotal, AllocMax, AllocMaxSite, Makes
+}
+
+// SortMaps makes MapKeys return keys in sorted order (exactly repeatable
+// schedules); otherwise Go's native randomised order is kept.
+var SortMaps bool
+
+// MapKeys is the seam for hash-map iteration order (see instr.mapRange).
+func MapKeys[M ~map[K]V, K cmp.Ordered, V any](m M) []K {
+	ks := make([]K, 0, len(m))
+	for k := range m {
+		ks = append(ks, k)
+	}
+	if SortMaps {
+		slices.Sort(ks)
+	}
+	return ks
 }
